@@ -89,13 +89,22 @@ func listenPorts(pid int) []int {
 // StartServer starts `updog server` for the given index file (use a private
 // copy: the server holds a file lock) on kernel-chosen loopback ports and
 // waits until the gRPC port of THIS process answers.  extra are additional
-// CLI flags, e.g. "-c=false", "-p".
+// CLI flags, e.g. "-c=false", "-p", or environment settings "env:KEY=VALUE".
 func StartServer(index string, extra ...string) (*Server, error) {
-	args := append([]string{"server", "-l", "127.0.0.1:0", "-d", "127.0.0.1:0", "-f", index}, extra...)
+	args := []string{"server", "-l", "127.0.0.1:0", "-d", "127.0.0.1:0", "-f", index}
+	env := append(os.Environ(), "GORACE=halt_on_error=1 exitcode=66")
+	for _, e := range extra {
+		// "env:KEY=VALUE" sets the server's environment instead of a flag
+		if strings.HasPrefix(e, "env:") {
+			env = append(env, e[4:])
+		} else {
+			args = append(args, e)
+		}
+	}
 	cmd := exec.Command(UpdogBin(), args...)
 	out := &lockedBuf{}
 	cmd.Stdout, cmd.Stderr = out, out
-	cmd.Env = append(os.Environ(), "GORACE=halt_on_error=1 exitcode=66")
+	cmd.Env = env
 	if err := cmd.Start(); err != nil {
 		return nil, err
 	}
